@@ -215,12 +215,17 @@ def _trace_robust(case, m):
     """every comparison of the model run has a relative margin (or is an exact tie of identical points)"""
     xt = float(Fraction(case["xtol"])) * len(case["x0"])
     ad = None if case.get("absdelta") is None else float(Fraction(case["absdelta"]))
-    for it in m["trace"]:
+    fake0 = case.get("cgfake") is not None and Fraction(case["cgfake"]["scale"]) == 0
+    for idx, it in enumerate(m["trace"]):
         if it is None:
             return False
         e = _fl(it["e"])
         natg = [_fl(v) for v in it["natg"]]
         zero_step = all(v == 0.0 for v in natg)
+        if zero_step and not (idx == 0 or fake0):
+            # an exactly vanishing CG step after the first iteration (exact convergence of the rational run) is a
+            # rounding event in floats: the float iterate carries a residual gradient of a few ulp
+            return False
         for te in it["trials"]:
             te = _fl(te)
             if zero_step and te == e:
